@@ -449,6 +449,7 @@ func VH_c07_hold_restart() {
 	const hold = 3
 	conf := f.pConf.ReadCopy()
 	conf.Timers.State.NegotiatedHoldTime, conf.Timers.State.KeepaliveInterval = hold, 1
+	conf.Timers.Config.HoldTime = 5 // the peer announced less than the configured value
 	f.pConf.Update(&conf)
 	f.familyMap.Store(map[bgp.Family]bgp.BGPAddPathMode{bgp.RF_IPv4_UC: bgp.BGP_ADD_PATH_NONE})
 	f.isEBGP = true
@@ -465,4 +466,52 @@ func VH_c07_hold_restart() {
 	}
 	vAssert(sent >= late+hold-1, "fewer KEEPALIVEs were sent than keepalive intervals elapsed")
 	vReach("end")
+}
+
+// OPEN validation: for every OPEN (version, 2-octet AS field, optional 4-octet AS capability, hold
+// time, identifier equal to / different from the local one, or 0.0.0.0) and every expectation (peer
+// AS configured or not, local AS), bgp.ValidateOpenMsg refuses exactly what RFC 4271 6.2 / RFC 6286
+// refuse, with the prescribed subcode, and otherwise returns the peer's real AS.
+func VH_c07_validate_open() {
+	version, hold := vU8("version"), vU16("hold")
+	myAS, expected := vU32("local_as"), vU32("configured_peer_as") // 0: not configured
+	vAssume(myAS != 0)
+	as := vU32("remote_as")
+	vAssume(as != 0)
+	four := vBool("cap_four_octet")
+	field := uint16(bgp.AS_TRANS)
+	if as < 65536 {
+		field = uint16(as)
+	} else {
+		vAssume(four)
+	}
+	var caps []bgp.ParameterCapabilityInterface
+	if four {
+		caps = append(caps, bgp.NewCapFourOctetASNumber(as))
+	}
+	localID := vAddr4(1, 1, 1, 1)
+	id := []netipAddr{vAddr4(0, 0, 0, 0), localID, vAddr4(2, 2, 2, 2)}[vChoice("identifier", 3)]
+	open, _ := bgp.NewBGPOpenMessage(field, hold, id, []bgp.OptionParameterInterface{bgp.NewOptionParameterCapability(caps)})
+	o := open.Body.(*bgp.BGPOpen)
+	o.Version = version
+	got, err := bgp.ValidateOpenMsg(o, expected, myAS, localID)
+	sub := uint8(0)
+	switch {
+	case version != 4:
+		sub = bgp.BGP_ERROR_SUB_UNSUPPORTED_VERSION_NUMBER
+	case id == vAddr4(0, 0, 0, 0) || as == myAS && id == localID:
+		sub = bgp.BGP_ERROR_SUB_BAD_BGP_IDENTIFIER
+	case expected != 0 && as != expected:
+		sub = bgp.BGP_ERROR_SUB_BAD_PEER_AS
+	case hold == 1 || hold == 2:
+		sub = bgp.BGP_ERROR_SUB_UNACCEPTABLE_HOLD_TIME
+	}
+	if sub == 0 {
+		vAssert(err == nil && got == as, "an acceptable OPEN is refused (or the peer AS returned is not the real one)")
+		vReach("accepted")
+		return
+	}
+	me, ok := err.(*bgp.MessageError)
+	vAssert(ok && me.TypeCode == bgp.BGP_ERROR_OPEN_MESSAGE_ERROR && me.SubTypeCode == sub, "an unacceptable OPEN is not refused with the OPEN Message Error subcode RFC 4271 / RFC 6286 prescribe")
+	vReach("refused")
 }
